@@ -1,0 +1,370 @@
+//go:build verif
+
+package http
+
+// Contracts for govc (comment-only; compiled only with -tags verif). Property C18 (HTTP side).
+//
+//@ spec import lib/http
+//@ spec import lib/std
+//@ spec import C18
+//
+// credentialStore, store, proxy, cluster are set when the Service is built and never re-assigned.
+//@ type Service
+//@   stable credentialStore, store, proxy, cluster
+//@   stable_set_in New
+//
+//@ func (CredentialStore) AA
+//@   noheap
+//@   ensures [rule] result == aaRule(self, username, password, perm)
+//
+// CheckRequestPerm: true iff no credential store is configured or the store authorizes the
+// supplied BasicAuth credentials (empty user when absent) for perm; records the outcome.
+//@ func (*Service) CheckRequestPerm
+//@   requires [recv] s != nil
+//@   assigns authzGranted
+//@   ghost update @exit: authzGranted = update(authzGranted, perm, b)
+//@   ensures [off] s.credentialStore == nil ==> b
+//@   ensures [rule] s.credentialStore != nil ==> b == aaRule(s.credentialStore, ite(reqHasAuth(r), reqUser(r), ""), ite(reqHasAuth(r), reqPass(r), ""), perm)
+//@   ensures [recorded] authzGranted == update(old(authzGranted), perm, b)
+//
+//@ func (*Service) CheckRequestPermAll
+//@   requires [recv] s != nil
+//@   assigns authzGranted
+//@   ghost update @s.credentialStore.AA: authzGranted = update(authzGranted, perm, result)
+//@   loop 1 invariant [all-so-far] forall j int :: (0 <= j && j < _i) ==> (authzGranted[perms[j]] && aaRule(s.credentialStore, ite(reqHasAuth(r), reqUser(r), ""), ite(reqHasAuth(r), reqPass(r), ""), perms[j]))
+//@   loop 1 invariant [only-granted] forall p string :: (authzGranted[p] && !old(authzGranted)[p]) ==> aaRule(s.credentialStore, ite(reqHasAuth(r), reqUser(r), ""), ite(reqHasAuth(r), reqPass(r), ""), p)
+//@   ensures [off] s.credentialStore == nil ==> b
+//@   ensures [all] (s.credentialStore != nil && b) ==> (forall j int :: (0 <= j && j < len(perms)) ==> (authzGranted[perms[j]] && aaRule(s.credentialStore, ite(reqHasAuth(r), reqUser(r), ""), ite(reqHasAuth(r), reqPass(r), ""), perms[j])))
+//@   ensures [some-refused] (s.credentialStore != nil && !b) ==> (exists j int :: 0 <= j && j < len(perms) && !aaRule(s.credentialStore, ite(reqHasAuth(r), reqUser(r), ""), ite(reqHasAuth(r), reqPass(r), ""), perms[j]))
+//
+// Every handler: each call that acts on the store/cluster/queue or writes a response body is
+// reached only with the endpoint's permission(s) granted (or with no credential store).
+
+//@ func (*Service) handleRemove
+//@   requires [fresh] s != nil && (forall p string :: !authzGranted[p])
+//@   assigns *, authzGranted, chanClosed
+//@   assert @s.store.*: [authz] s.credentialStore == nil || (authzGranted["remove"])
+//@   assert @s.proxy.*: [authz] s.credentialStore == nil || (authzGranted["remove"])
+//@   assert @s.cluster.*: [authz] s.credentialStore == nil || (authzGranted["remove"])
+//@   assert @s.stmtQueue.*: [authz] s.credentialStore == nil || (authzGranted["remove"])
+//@   assert @s.writeResponse*: [authz] s.credentialStore == nil || (authzGranted["remove"])
+//@   assert @?w.Write: [authz] s.credentialStore == nil || (authzGranted["remove"])
+//@   assert @?enc.Encode: [authz] s.credentialStore == nil || (authzGranted["remove"])
+//@   assert @s.uiHandler.*: [authz] s.credentialStore == nil || (authzGranted["remove"])
+//@   assert @expvar.Do*: [authz] s.credentialStore == nil || (authzGranted["remove"])
+//@   assert @pprof.*: [authz] s.credentialStore == nil || (authzGranted["remove"])
+//@   assert @fmt.Fprintf*: [authz] s.credentialStore == nil || (authzGranted["remove"])
+//@   assert @s.execute*: [authz] s.credentialStore == nil || (authzGranted["remove"])
+//@   assert @s.queuedExecute*: [authz] s.credentialStore == nil || (authzGranted["remove"])
+//@   assert @sql.*: [authz] s.credentialStore == nil || (authzGranted["remove"])
+//
+//@ func (*Service) handleSQLAnalyze
+//@   requires [fresh] s != nil && (forall p string :: !authzGranted[p])
+//@   assigns *, authzGranted, chanClosed
+//@   assert @s.store.*: [authz] s.credentialStore == nil || (authzGranted["query"])
+//@   assert @s.proxy.*: [authz] s.credentialStore == nil || (authzGranted["query"])
+//@   assert @s.cluster.*: [authz] s.credentialStore == nil || (authzGranted["query"])
+//@   assert @s.stmtQueue.*: [authz] s.credentialStore == nil || (authzGranted["query"])
+//@   assert @s.writeResponse*: [authz] s.credentialStore == nil || (authzGranted["query"])
+//@   assert @?w.Write: [authz] s.credentialStore == nil || (authzGranted["query"])
+//@   assert @?enc.Encode: [authz] s.credentialStore == nil || (authzGranted["query"])
+//@   assert @s.uiHandler.*: [authz] s.credentialStore == nil || (authzGranted["query"])
+//@   assert @expvar.Do*: [authz] s.credentialStore == nil || (authzGranted["query"])
+//@   assert @pprof.*: [authz] s.credentialStore == nil || (authzGranted["query"])
+//@   assert @fmt.Fprintf*: [authz] s.credentialStore == nil || (authzGranted["query"])
+//@   assert @s.execute*: [authz] s.credentialStore == nil || (authzGranted["query"])
+//@   assert @s.queuedExecute*: [authz] s.credentialStore == nil || (authzGranted["query"])
+//@   assert @sql.*: [authz] s.credentialStore == nil || (authzGranted["query"])
+//
+//@ func (*Service) handleBackup
+//@   requires [fresh] s != nil && (forall p string :: !authzGranted[p])
+//@   assigns *, authzGranted, chanClosed
+//@   assert @s.store.*: [authz] s.credentialStore == nil || (authzGranted["backup"])
+//@   assert @s.proxy.*: [authz] s.credentialStore == nil || (authzGranted["backup"])
+//@   assert @s.cluster.*: [authz] s.credentialStore == nil || (authzGranted["backup"])
+//@   assert @s.stmtQueue.*: [authz] s.credentialStore == nil || (authzGranted["backup"])
+//@   assert @s.writeResponse*: [authz] s.credentialStore == nil || (authzGranted["backup"])
+//@   assert @?w.Write: [authz] s.credentialStore == nil || (authzGranted["backup"])
+//@   assert @?enc.Encode: [authz] s.credentialStore == nil || (authzGranted["backup"])
+//@   assert @s.uiHandler.*: [authz] s.credentialStore == nil || (authzGranted["backup"])
+//@   assert @expvar.Do*: [authz] s.credentialStore == nil || (authzGranted["backup"])
+//@   assert @pprof.*: [authz] s.credentialStore == nil || (authzGranted["backup"])
+//@   assert @fmt.Fprintf*: [authz] s.credentialStore == nil || (authzGranted["backup"])
+//@   assert @s.execute*: [authz] s.credentialStore == nil || (authzGranted["backup"])
+//@   assert @s.queuedExecute*: [authz] s.credentialStore == nil || (authzGranted["backup"])
+//@   assert @sql.*: [authz] s.credentialStore == nil || (authzGranted["backup"])
+//
+//@ func (*Service) handleLoad
+//@   requires [fresh] s != nil && (forall p string :: !authzGranted[p])
+//@   assigns *, authzGranted, chanClosed
+//@   assert @s.store.*: [authz] s.credentialStore == nil || (authzGranted["load"])
+//@   assert @s.proxy.*: [authz] s.credentialStore == nil || (authzGranted["load"])
+//@   assert @s.cluster.*: [authz] s.credentialStore == nil || (authzGranted["load"])
+//@   assert @s.stmtQueue.*: [authz] s.credentialStore == nil || (authzGranted["load"])
+//@   assert @s.writeResponse*: [authz] s.credentialStore == nil || (authzGranted["load"])
+//@   assert @?w.Write: [authz] s.credentialStore == nil || (authzGranted["load"])
+//@   assert @?enc.Encode: [authz] s.credentialStore == nil || (authzGranted["load"])
+//@   assert @s.uiHandler.*: [authz] s.credentialStore == nil || (authzGranted["load"])
+//@   assert @expvar.Do*: [authz] s.credentialStore == nil || (authzGranted["load"])
+//@   assert @pprof.*: [authz] s.credentialStore == nil || (authzGranted["load"])
+//@   assert @fmt.Fprintf*: [authz] s.credentialStore == nil || (authzGranted["load"])
+//@   assert @s.execute*: [authz] s.credentialStore == nil || (authzGranted["load"])
+//@   assert @s.queuedExecute*: [authz] s.credentialStore == nil || (authzGranted["load"])
+//@   assert @sql.*: [authz] s.credentialStore == nil || (authzGranted["load"])
+//
+//@ func (*Service) handleBoot
+//@   requires [fresh] s != nil && (forall p string :: !authzGranted[p])
+//@   assigns *, authzGranted, chanClosed
+//@   assert @s.store.*: [authz] s.credentialStore == nil || (authzGranted["load"])
+//@   assert @s.proxy.*: [authz] s.credentialStore == nil || (authzGranted["load"])
+//@   assert @s.cluster.*: [authz] s.credentialStore == nil || (authzGranted["load"])
+//@   assert @s.stmtQueue.*: [authz] s.credentialStore == nil || (authzGranted["load"])
+//@   assert @s.writeResponse*: [authz] s.credentialStore == nil || (authzGranted["load"])
+//@   assert @?w.Write: [authz] s.credentialStore == nil || (authzGranted["load"])
+//@   assert @?enc.Encode: [authz] s.credentialStore == nil || (authzGranted["load"])
+//@   assert @s.uiHandler.*: [authz] s.credentialStore == nil || (authzGranted["load"])
+//@   assert @expvar.Do*: [authz] s.credentialStore == nil || (authzGranted["load"])
+//@   assert @pprof.*: [authz] s.credentialStore == nil || (authzGranted["load"])
+//@   assert @fmt.Fprintf*: [authz] s.credentialStore == nil || (authzGranted["load"])
+//@   assert @s.execute*: [authz] s.credentialStore == nil || (authzGranted["load"])
+//@   assert @s.queuedExecute*: [authz] s.credentialStore == nil || (authzGranted["load"])
+//@   assert @sql.*: [authz] s.credentialStore == nil || (authzGranted["load"])
+//
+//@ func (*Service) handleSnapshot
+//@   requires [fresh] s != nil && (forall p string :: !authzGranted[p])
+//@   assigns *, authzGranted, chanClosed
+//@   assert @s.store.*: [authz] s.credentialStore == nil || (authzGranted["snapshot"])
+//@   assert @s.proxy.*: [authz] s.credentialStore == nil || (authzGranted["snapshot"])
+//@   assert @s.cluster.*: [authz] s.credentialStore == nil || (authzGranted["snapshot"])
+//@   assert @s.stmtQueue.*: [authz] s.credentialStore == nil || (authzGranted["snapshot"])
+//@   assert @s.writeResponse*: [authz] s.credentialStore == nil || (authzGranted["snapshot"])
+//@   assert @?w.Write: [authz] s.credentialStore == nil || (authzGranted["snapshot"])
+//@   assert @?enc.Encode: [authz] s.credentialStore == nil || (authzGranted["snapshot"])
+//@   assert @s.uiHandler.*: [authz] s.credentialStore == nil || (authzGranted["snapshot"])
+//@   assert @expvar.Do*: [authz] s.credentialStore == nil || (authzGranted["snapshot"])
+//@   assert @pprof.*: [authz] s.credentialStore == nil || (authzGranted["snapshot"])
+//@   assert @fmt.Fprintf*: [authz] s.credentialStore == nil || (authzGranted["snapshot"])
+//@   assert @s.execute*: [authz] s.credentialStore == nil || (authzGranted["snapshot"])
+//@   assert @s.queuedExecute*: [authz] s.credentialStore == nil || (authzGranted["snapshot"])
+//@   assert @sql.*: [authz] s.credentialStore == nil || (authzGranted["snapshot"])
+//
+//@ func (*Service) handleReap
+//@   requires [fresh] s != nil && (forall p string :: !authzGranted[p])
+//@   assigns *, authzGranted, chanClosed
+//@   assert @s.store.*: [authz] s.credentialStore == nil || (authzGranted["snapshot"])
+//@   assert @s.proxy.*: [authz] s.credentialStore == nil || (authzGranted["snapshot"])
+//@   assert @s.cluster.*: [authz] s.credentialStore == nil || (authzGranted["snapshot"])
+//@   assert @s.stmtQueue.*: [authz] s.credentialStore == nil || (authzGranted["snapshot"])
+//@   assert @s.writeResponse*: [authz] s.credentialStore == nil || (authzGranted["snapshot"])
+//@   assert @?w.Write: [authz] s.credentialStore == nil || (authzGranted["snapshot"])
+//@   assert @?enc.Encode: [authz] s.credentialStore == nil || (authzGranted["snapshot"])
+//@   assert @s.uiHandler.*: [authz] s.credentialStore == nil || (authzGranted["snapshot"])
+//@   assert @expvar.Do*: [authz] s.credentialStore == nil || (authzGranted["snapshot"])
+//@   assert @pprof.*: [authz] s.credentialStore == nil || (authzGranted["snapshot"])
+//@   assert @fmt.Fprintf*: [authz] s.credentialStore == nil || (authzGranted["snapshot"])
+//@   assert @s.execute*: [authz] s.credentialStore == nil || (authzGranted["snapshot"])
+//@   assert @s.queuedExecute*: [authz] s.credentialStore == nil || (authzGranted["snapshot"])
+//@   assert @sql.*: [authz] s.credentialStore == nil || (authzGranted["snapshot"])
+//
+//@ func (*Service) handleStatus
+//@   requires [fresh] s != nil && (forall p string :: !authzGranted[p])
+//@   assigns *, authzGranted, chanClosed
+//@   assert @s.store.*: [authz] s.credentialStore == nil || (authzGranted["status"])
+//@   assert @s.proxy.*: [authz] s.credentialStore == nil || (authzGranted["status"])
+//@   assert @s.cluster.*: [authz] s.credentialStore == nil || (authzGranted["status"])
+//@   assert @s.stmtQueue.*: [authz] s.credentialStore == nil || (authzGranted["status"])
+//@   assert @s.writeResponse*: [authz] s.credentialStore == nil || (authzGranted["status"])
+//@   assert @?w.Write: [authz] s.credentialStore == nil || (authzGranted["status"])
+//@   assert @?enc.Encode: [authz] s.credentialStore == nil || (authzGranted["status"])
+//@   assert @s.uiHandler.*: [authz] s.credentialStore == nil || (authzGranted["status"])
+//@   assert @expvar.Do*: [authz] s.credentialStore == nil || (authzGranted["status"])
+//@   assert @pprof.*: [authz] s.credentialStore == nil || (authzGranted["status"])
+//@   assert @fmt.Fprintf*: [authz] s.credentialStore == nil || (authzGranted["status"])
+//@   assert @s.execute*: [authz] s.credentialStore == nil || (authzGranted["status"])
+//@   assert @s.queuedExecute*: [authz] s.credentialStore == nil || (authzGranted["status"])
+//@   assert @sql.*: [authz] s.credentialStore == nil || (authzGranted["status"])
+//
+//@ func (*Service) handleNodes
+//@   requires [fresh] s != nil && (forall p string :: !authzGranted[p])
+//@   assigns *, authzGranted, chanClosed
+//@   assert @s.store.*: [authz] s.credentialStore == nil || (authzGranted["status"])
+//@   assert @s.proxy.*: [authz] s.credentialStore == nil || (authzGranted["status"])
+//@   assert @s.cluster.*: [authz] s.credentialStore == nil || (authzGranted["status"])
+//@   assert @s.stmtQueue.*: [authz] s.credentialStore == nil || (authzGranted["status"])
+//@   assert @s.writeResponse*: [authz] s.credentialStore == nil || (authzGranted["status"])
+//@   assert @?w.Write: [authz] s.credentialStore == nil || (authzGranted["status"])
+//@   assert @?enc.Encode: [authz] s.credentialStore == nil || (authzGranted["status"])
+//@   assert @s.uiHandler.*: [authz] s.credentialStore == nil || (authzGranted["status"])
+//@   assert @expvar.Do*: [authz] s.credentialStore == nil || (authzGranted["status"])
+//@   assert @pprof.*: [authz] s.credentialStore == nil || (authzGranted["status"])
+//@   assert @fmt.Fprintf*: [authz] s.credentialStore == nil || (authzGranted["status"])
+//@   assert @s.execute*: [authz] s.credentialStore == nil || (authzGranted["status"])
+//@   assert @s.queuedExecute*: [authz] s.credentialStore == nil || (authzGranted["status"])
+//@   assert @sql.*: [authz] s.credentialStore == nil || (authzGranted["status"])
+//
+//@ func (*Service) handleLeader
+//@   requires [fresh] s != nil && (forall p string :: !authzGranted[p])
+//@   assigns *, authzGranted, chanClosed
+//@   assert @s.store.*: [authz] s.credentialStore == nil || (authzGranted["leader-ops"])
+//@   assert @s.proxy.*: [authz] s.credentialStore == nil || (authzGranted["leader-ops"])
+//@   assert @s.cluster.*: [authz] s.credentialStore == nil || (authzGranted["leader-ops"])
+//@   assert @s.stmtQueue.*: [authz] s.credentialStore == nil || (authzGranted["leader-ops"])
+//@   assert @s.writeResponse*: [authz] s.credentialStore == nil || (authzGranted["leader-ops"])
+//@   assert @?w.Write: [authz] s.credentialStore == nil || (authzGranted["leader-ops"])
+//@   assert @?enc.Encode: [authz] s.credentialStore == nil || (authzGranted["leader-ops"])
+//@   assert @s.uiHandler.*: [authz] s.credentialStore == nil || (authzGranted["leader-ops"])
+//@   assert @expvar.Do*: [authz] s.credentialStore == nil || (authzGranted["leader-ops"])
+//@   assert @pprof.*: [authz] s.credentialStore == nil || (authzGranted["leader-ops"])
+//@   assert @fmt.Fprintf*: [authz] s.credentialStore == nil || (authzGranted["leader-ops"])
+//@   assert @s.execute*: [authz] s.credentialStore == nil || (authzGranted["leader-ops"])
+//@   assert @s.queuedExecute*: [authz] s.credentialStore == nil || (authzGranted["leader-ops"])
+//@   assert @sql.*: [authz] s.credentialStore == nil || (authzGranted["leader-ops"])
+//
+//@ func (*Service) handleReadyz
+//@   requires [fresh] s != nil && (forall p string :: !authzGranted[p])
+//@   assigns *, authzGranted, chanClosed
+//@   assert @s.store.*: [authz] s.credentialStore == nil || (authzGranted["ready"])
+//@   assert @s.proxy.*: [authz] s.credentialStore == nil || (authzGranted["ready"])
+//@   assert @s.cluster.*: [authz] s.credentialStore == nil || (authzGranted["ready"])
+//@   assert @s.stmtQueue.*: [authz] s.credentialStore == nil || (authzGranted["ready"])
+//@   assert @s.writeResponse*: [authz] s.credentialStore == nil || (authzGranted["ready"])
+//@   assert @?w.Write: [authz] s.credentialStore == nil || (authzGranted["ready"])
+//@   assert @?enc.Encode: [authz] s.credentialStore == nil || (authzGranted["ready"])
+//@   assert @s.uiHandler.*: [authz] s.credentialStore == nil || (authzGranted["ready"])
+//@   assert @expvar.Do*: [authz] s.credentialStore == nil || (authzGranted["ready"])
+//@   assert @pprof.*: [authz] s.credentialStore == nil || (authzGranted["ready"])
+//@   assert @fmt.Fprintf*: [authz] s.credentialStore == nil || (authzGranted["ready"])
+//@   assert @s.execute*: [authz] s.credentialStore == nil || (authzGranted["ready"])
+//@   assert @s.queuedExecute*: [authz] s.credentialStore == nil || (authzGranted["ready"])
+//@   assert @sql.*: [authz] s.credentialStore == nil || (authzGranted["ready"])
+//
+//@ func (*Service) handleLicenses
+//@   requires [fresh] s != nil && (forall p string :: !authzGranted[p])
+//@   assigns *, authzGranted, chanClosed
+//@   assert @s.store.*: [authz] s.credentialStore == nil || (authzGranted["status"])
+//@   assert @s.proxy.*: [authz] s.credentialStore == nil || (authzGranted["status"])
+//@   assert @s.cluster.*: [authz] s.credentialStore == nil || (authzGranted["status"])
+//@   assert @s.stmtQueue.*: [authz] s.credentialStore == nil || (authzGranted["status"])
+//@   assert @s.writeResponse*: [authz] s.credentialStore == nil || (authzGranted["status"])
+//@   assert @?w.Write: [authz] s.credentialStore == nil || (authzGranted["status"])
+//@   assert @?enc.Encode: [authz] s.credentialStore == nil || (authzGranted["status"])
+//@   assert @s.uiHandler.*: [authz] s.credentialStore == nil || (authzGranted["status"])
+//@   assert @expvar.Do*: [authz] s.credentialStore == nil || (authzGranted["status"])
+//@   assert @pprof.*: [authz] s.credentialStore == nil || (authzGranted["status"])
+//@   assert @fmt.Fprintf*: [authz] s.credentialStore == nil || (authzGranted["status"])
+//@   assert @s.execute*: [authz] s.credentialStore == nil || (authzGranted["status"])
+//@   assert @s.queuedExecute*: [authz] s.credentialStore == nil || (authzGranted["status"])
+//@   assert @sql.*: [authz] s.credentialStore == nil || (authzGranted["status"])
+//
+//@ func (*Service) handleUI
+//@   requires [fresh] s != nil && (forall p string :: !authzGranted[p])
+//@   assigns *, authzGranted, chanClosed
+//@   assert @s.store.*: [authz] s.credentialStore == nil || (authzGranted["ui"])
+//@   assert @s.proxy.*: [authz] s.credentialStore == nil || (authzGranted["ui"])
+//@   assert @s.cluster.*: [authz] s.credentialStore == nil || (authzGranted["ui"])
+//@   assert @s.stmtQueue.*: [authz] s.credentialStore == nil || (authzGranted["ui"])
+//@   assert @s.writeResponse*: [authz] s.credentialStore == nil || (authzGranted["ui"])
+//@   assert @?w.Write: [authz] s.credentialStore == nil || (authzGranted["ui"])
+//@   assert @?enc.Encode: [authz] s.credentialStore == nil || (authzGranted["ui"])
+//@   assert @s.uiHandler.*: [authz] s.credentialStore == nil || (authzGranted["ui"])
+//@   assert @expvar.Do*: [authz] s.credentialStore == nil || (authzGranted["ui"])
+//@   assert @pprof.*: [authz] s.credentialStore == nil || (authzGranted["ui"])
+//@   assert @fmt.Fprintf*: [authz] s.credentialStore == nil || (authzGranted["ui"])
+//@   assert @s.execute*: [authz] s.credentialStore == nil || (authzGranted["ui"])
+//@   assert @s.queuedExecute*: [authz] s.credentialStore == nil || (authzGranted["ui"])
+//@   assert @sql.*: [authz] s.credentialStore == nil || (authzGranted["ui"])
+//
+//@ func (*Service) handleExecute
+//@   requires [fresh] s != nil && (forall p string :: !authzGranted[p])
+//@   assigns *, authzGranted, chanClosed
+//@   assert @s.store.*: [authz] s.credentialStore == nil || (authzGranted["execute"])
+//@   assert @s.proxy.*: [authz] s.credentialStore == nil || (authzGranted["execute"])
+//@   assert @s.cluster.*: [authz] s.credentialStore == nil || (authzGranted["execute"])
+//@   assert @s.stmtQueue.*: [authz] s.credentialStore == nil || (authzGranted["execute"])
+//@   assert @s.writeResponse*: [authz] s.credentialStore == nil || (authzGranted["execute"])
+//@   assert @?w.Write: [authz] s.credentialStore == nil || (authzGranted["execute"])
+//@   assert @?enc.Encode: [authz] s.credentialStore == nil || (authzGranted["execute"])
+//@   assert @s.uiHandler.*: [authz] s.credentialStore == nil || (authzGranted["execute"])
+//@   assert @expvar.Do*: [authz] s.credentialStore == nil || (authzGranted["execute"])
+//@   assert @pprof.*: [authz] s.credentialStore == nil || (authzGranted["execute"])
+//@   assert @fmt.Fprintf*: [authz] s.credentialStore == nil || (authzGranted["execute"])
+//@   assert @s.execute*: [authz] s.credentialStore == nil || (authzGranted["execute"])
+//@   assert @s.queuedExecute*: [authz] s.credentialStore == nil || (authzGranted["execute"])
+//@   assert @sql.*: [authz] s.credentialStore == nil || (authzGranted["execute"])
+//
+//@ func (*Service) handleQuery
+//@   requires [fresh] s != nil && (forall p string :: !authzGranted[p])
+//@   assigns *, authzGranted, chanClosed
+//@   assert @s.store.*: [authz] s.credentialStore == nil || (authzGranted["query"])
+//@   assert @s.proxy.*: [authz] s.credentialStore == nil || (authzGranted["query"])
+//@   assert @s.cluster.*: [authz] s.credentialStore == nil || (authzGranted["query"])
+//@   assert @s.stmtQueue.*: [authz] s.credentialStore == nil || (authzGranted["query"])
+//@   assert @s.writeResponse*: [authz] s.credentialStore == nil || (authzGranted["query"])
+//@   assert @?w.Write: [authz] s.credentialStore == nil || (authzGranted["query"])
+//@   assert @?enc.Encode: [authz] s.credentialStore == nil || (authzGranted["query"])
+//@   assert @s.uiHandler.*: [authz] s.credentialStore == nil || (authzGranted["query"])
+//@   assert @expvar.Do*: [authz] s.credentialStore == nil || (authzGranted["query"])
+//@   assert @pprof.*: [authz] s.credentialStore == nil || (authzGranted["query"])
+//@   assert @fmt.Fprintf*: [authz] s.credentialStore == nil || (authzGranted["query"])
+//@   assert @s.execute*: [authz] s.credentialStore == nil || (authzGranted["query"])
+//@   assert @s.queuedExecute*: [authz] s.credentialStore == nil || (authzGranted["query"])
+//@   assert @sql.*: [authz] s.credentialStore == nil || (authzGranted["query"])
+//
+//@ func (*Service) handleRequest
+//@   requires [fresh] s != nil && (forall p string :: !authzGranted[p])
+//@   assigns *, authzGranted, chanClosed
+//@   assert @s.store.*: [authz] s.credentialStore == nil || (authzGranted["query"] && authzGranted["execute"])
+//@   assert @s.proxy.*: [authz] s.credentialStore == nil || (authzGranted["query"] && authzGranted["execute"])
+//@   assert @s.cluster.*: [authz] s.credentialStore == nil || (authzGranted["query"] && authzGranted["execute"])
+//@   assert @s.stmtQueue.*: [authz] s.credentialStore == nil || (authzGranted["query"] && authzGranted["execute"])
+//@   assert @s.writeResponse*: [authz] s.credentialStore == nil || (authzGranted["query"] && authzGranted["execute"])
+//@   assert @?w.Write: [authz] s.credentialStore == nil || (authzGranted["query"] && authzGranted["execute"])
+//@   assert @?enc.Encode: [authz] s.credentialStore == nil || (authzGranted["query"] && authzGranted["execute"])
+//@   assert @s.uiHandler.*: [authz] s.credentialStore == nil || (authzGranted["query"] && authzGranted["execute"])
+//@   assert @expvar.Do*: [authz] s.credentialStore == nil || (authzGranted["query"] && authzGranted["execute"])
+//@   assert @pprof.*: [authz] s.credentialStore == nil || (authzGranted["query"] && authzGranted["execute"])
+//@   assert @fmt.Fprintf*: [authz] s.credentialStore == nil || (authzGranted["query"] && authzGranted["execute"])
+//@   assert @s.execute*: [authz] s.credentialStore == nil || (authzGranted["query"] && authzGranted["execute"])
+//@   assert @s.queuedExecute*: [authz] s.credentialStore == nil || (authzGranted["query"] && authzGranted["execute"])
+//@   assert @sql.*: [authz] s.credentialStore == nil || (authzGranted["query"] && authzGranted["execute"])
+//
+//@ func (*Service) handleExpvar
+//@   requires [fresh] s != nil && (forall p string :: !authzGranted[p])
+//@   assigns *, authzGranted, chanClosed
+//@   assert @s.store.*: [authz] s.credentialStore == nil || (authzGranted["status"])
+//@   assert @s.proxy.*: [authz] s.credentialStore == nil || (authzGranted["status"])
+//@   assert @s.cluster.*: [authz] s.credentialStore == nil || (authzGranted["status"])
+//@   assert @s.stmtQueue.*: [authz] s.credentialStore == nil || (authzGranted["status"])
+//@   assert @s.writeResponse*: [authz] s.credentialStore == nil || (authzGranted["status"])
+//@   assert @?w.Write: [authz] s.credentialStore == nil || (authzGranted["status"])
+//@   assert @?enc.Encode: [authz] s.credentialStore == nil || (authzGranted["status"])
+//@   assert @s.uiHandler.*: [authz] s.credentialStore == nil || (authzGranted["status"])
+//@   assert @expvar.Do*: [authz] s.credentialStore == nil || (authzGranted["status"])
+//@   assert @pprof.*: [authz] s.credentialStore == nil || (authzGranted["status"])
+//@   assert @fmt.Fprintf*: [authz] s.credentialStore == nil || (authzGranted["status"])
+//@   assert @s.execute*: [authz] s.credentialStore == nil || (authzGranted["status"])
+//@   assert @s.queuedExecute*: [authz] s.credentialStore == nil || (authzGranted["status"])
+//@   assert @sql.*: [authz] s.credentialStore == nil || (authzGranted["status"])
+//
+//@ func (*Service) handlePprof
+//@   requires [fresh] s != nil && (forall p string :: !authzGranted[p])
+//@   assigns *, authzGranted, chanClosed
+//@   assert @s.store.*: [authz] s.credentialStore == nil || (authzGranted["status"])
+//@   assert @s.proxy.*: [authz] s.credentialStore == nil || (authzGranted["status"])
+//@   assert @s.cluster.*: [authz] s.credentialStore == nil || (authzGranted["status"])
+//@   assert @s.stmtQueue.*: [authz] s.credentialStore == nil || (authzGranted["status"])
+//@   assert @s.writeResponse*: [authz] s.credentialStore == nil || (authzGranted["status"])
+//@   assert @?w.Write: [authz] s.credentialStore == nil || (authzGranted["status"])
+//@   assert @?enc.Encode: [authz] s.credentialStore == nil || (authzGranted["status"])
+//@   assert @s.uiHandler.*: [authz] s.credentialStore == nil || (authzGranted["status"])
+//@   assert @expvar.Do*: [authz] s.credentialStore == nil || (authzGranted["status"])
+//@   assert @pprof.*: [authz] s.credentialStore == nil || (authzGranted["status"])
+//@   assert @fmt.Fprintf*: [authz] s.credentialStore == nil || (authzGranted["status"])
+//@   assert @s.execute*: [authz] s.credentialStore == nil || (authzGranted["status"])
+//@   assert @s.queuedExecute*: [authz] s.credentialStore == nil || (authzGranted["status"])
+//@   assert @sql.*: [authz] s.credentialStore == nil || (authzGranted["status"])
+//
+// ServeHTTP dispatches with no permission granted yet (each handler performs its own check).
+//@ func (*Service) ServeHTTP
+//@   requires [fresh] s != nil && (forall p string :: !authzGranted[p])
+//@   assigns *, authzGranted, chanClosed
